@@ -63,6 +63,10 @@ pub struct Recorder {
     pub plan: Mutex<Plan>,
     pub fault_hit: AtomicU64,
     pub keep_data: bool,
+    /// names that exist according to the events seen so far
+    names: Mutex<std::collections::BTreeSet<String>>,
+    /// removals that bypassed the hook (found by looking at the real directory)
+    pub unhooked_unlinks: AtomicU64,
 }
 
 impl Recorder {
@@ -76,6 +80,8 @@ impl Recorder {
             plan: Mutex::new(plan),
             fault_hit: AtomicU64::new(0),
             keep_data,
+            names: Mutex::new(Default::default()),
+            unhooked_unlinks: AtomicU64::new(0),
         })
     }
     pub fn install(self: &Arc<Self>) -> Guard {
@@ -108,6 +114,41 @@ impl Hooks for Recorder {
             if n == k {
                 self.fault_hit.fetch_add(1, Ordering::SeqCst);
                 return Err(std::io::Error::other("injected I/O fault"));
+            }
+        }
+        // The trace is only as good as the hooks: a file the events say exists but the real
+        // directory no longer has was removed behind the hook's back. It enters the trace as an
+        // unlink at this point, so that the crash images show what a crash here would leave.
+        if let Some(dir) = ev.path.parent() {
+            let mut names = self.names.lock().unwrap();
+            let gone: Vec<String> = names.iter().filter(|n| !dir.join(n).exists()).cloned().collect();
+            for name in gone {
+                names.remove(&name);
+                self.unhooked_unlinks.fetch_add(1, Ordering::SeqCst);
+                self.events.lock().unwrap().push(Ev {
+                    file: name,
+                    kind: EvKind::Unlink,
+                    op: self.op.load(Ordering::SeqCst),
+                    acked: self.acked.load(Ordering::SeqCst),
+                    started: self.started.load(Ordering::SeqCst),
+                });
+            }
+            let this = fname(ev.path);
+            match ev.kind {
+                IoKind::Create | IoKind::Write | IoKind::SetLen => {
+                    // (the hook runs before the operation: the file is there afterwards)
+                    names.insert(this);
+                }
+                IoKind::Rename => {
+                    names.remove(&this);
+                    if let Some(to) = ev.to {
+                        names.insert(fname(to));
+                    }
+                }
+                IoKind::Unlink => {
+                    names.remove(&this);
+                }
+                IoKind::Sync => {}
             }
         }
         let kind = match ev.kind {
